@@ -73,9 +73,9 @@ func calleeNameNoPath(c *ssa.CallCommon) string {
 // Walker explores forward from a program point.
 type Walker struct {
 	P       *Program
-	Removed map[edge]bool                  // CFG edges that may not be taken
-	Stop    func(in ssa.Instruction) bool  // instructions that block the path (path ends, not a hit)
-	NoPanic bool                           // if set, do NOT treat no-return calls as path ends
+	Removed map[edge]bool                 // CFG edges that may not be taken
+	Stop    func(in ssa.Instruction) bool // instructions that block the path (path ends, not a hit)
+	NoPanic bool                          // if set, do NOT treat no-return calls as path ends
 	// TargetAt, if set, replaces the target predicate and also receives the predecessor block through which
 	// the instruction's block was entered on this path (nil at the start), to resolve phis edge-sensitively.
 	TargetAt func(in ssa.Instruction, path []*ssa.BasicBlock) bool
@@ -126,10 +126,10 @@ type Hit struct {
 // Paths end at Stop instructions, at panics and at calls to functions that never return.
 func (w *Walker) Reach(fn *ssa.Function, start *ssa.BasicBlock, idx int, target func(ssa.Instruction) bool) (Hit, bool) {
 	type item struct {
-		b    *ssa.BasicBlock
-		i    int
-		prev *pathNode
-		pred *ssa.BasicBlock
+		b     *ssa.BasicBlock
+		i     int
+		prev  *pathNode
+		pred  *ssa.BasicBlock
 		facts string
 	}
 	type skey struct {
